@@ -47,6 +47,7 @@ def main():
     S.setitem_stream(run, drv)
     S.reshape_stream(run, drv)
     S.nested_stream(run, drv)
+    S.update_entry_stream(run, drv)
     import c16_extended as E
     E.advanced_reads(run)
     E.writes(run)
